@@ -880,6 +880,33 @@ func c11Plumbing(p *Prog, r *Report, rule string) {
 						return singleReturn(fi.Decl.Body)
 					}
 				}
+				// a function-valued field of the handle, set once where the handle is built:
+				//   &tx{withTx: func(ctx) ctx { return metadata.AppendToOutgoingContext(ctx, TxIdKey, id) }}
+				if fv, ok := info.Uses[x.Sel].(*types.Var); ok && fv.IsField() {
+					if _, isFn := fv.Type().Underlying().(*types.Signature); isFn {
+						var inits []ast.Expr
+						for _, file := range pkg.Syntax {
+							ast.Inspect(file, func(y ast.Node) bool {
+								switch n := y.(type) {
+								case *ast.KeyValueExpr:
+									if id, ok := n.Key.(*ast.Ident); ok && info.Uses[id] == fv {
+										inits = append(inits, n.Value)
+									}
+								case *ast.AssignStmt:
+									for i, l := range n.Lhs {
+										if sel, ok := l.(*ast.SelectorExpr); ok && info.Uses[sel.Sel] == fv && len(n.Lhs) == len(n.Rhs) {
+											inits = append(inits, n.Rhs[i])
+										}
+									}
+								}
+								return true
+							})
+						}
+						if len(inits) == 1 {
+							return decoratorReturn(inits[0], depth+1)
+						}
+					}
+				}
 			case *ast.Ident:
 				if fn, ok := info.Uses[x].(*types.Func); ok {
 					if fi := p.Funcs[fkey(fn)]; fi != nil && fi.Decl.Body != nil {
